@@ -109,7 +109,14 @@ def eval_sym(built, st, symvals):
 def history(M, rec, rng, g, desc):
     NE, CE = drive.engines(M)
     ops = D.random_ops(desc, rng)
-    built = D.build(M, desc, ops)
+    import copy as _copy
+
+    # numeric parameters may be NumPy values (0-d arrays, float64, length-1 turn rates): mutable objects the
+    # step must leave alone just like the supplied arrays
+    po = W.numpy_param_forms(desc, rng) if rng.random() < 0.25 else None
+    if po:
+        rec.count("histories_with_numpy_valued_parameters")
+    built = D.build(M, desc, ops, param_override=_copy.deepcopy(po))
     pars = g.pars()
     kw = drive.step_pars(pars)
     _, vals0 = g.values(desc, allow_inf=(rng.random() < 0.3))
@@ -210,7 +217,7 @@ def history(M, rec, rng, g, desc):
                         tgt.flags.writeable = False
                 if guarded_step(rec, built, ic1, eng_np, kw, opts0, "numpy", dict(ctx, intermediate=op)):
                     got = drive.read_next(built)
-                    tw = D.build(M, desc, ops)
+                    tw = D.build(M, desc, ops, param_override=_copy.deepcopy(po))
                     tw.net.step(init_conditions=drive.np_init(tw, vnew, "vec1"), engine=NE(), **opts0, **kw)
                     rec.count("refresh_in_place_comparisons")
                     if not _bitwise(got, drive.read_next(tw)):
@@ -236,7 +243,7 @@ def history(M, rec, rng, g, desc):
     if first_engine != "numpy":
         symvals.clear()
     r2, _ = first_step(built)
-    twin = D.build(M, desc, ops)
+    twin = D.build(M, desc, ops, param_override=_copy.deepcopy(po))
     if first_engine != "numpy":
         symvals.clear()
     r3, _ = first_step(twin)
